@@ -6,6 +6,7 @@ import (
 	"fmt"
 	"os"
 	"reflect"
+	"strconv"
 	"strings"
 	"sync/atomic"
 	"time"
@@ -607,6 +608,7 @@ func (c11) Run(u fw.Unit) fw.Result {
 		a.sample(map[string]any{"prefixes": c11Prefixes, "hostile_bytes": fmt.Sprintf("%q", c11HostileBytes), "truncated_statements": len(c11CutStatements)})
 	case "match":
 		c11RunMatches(a)
+		c11RunWithin(a)
 	case "grammar":
 		stmts := c11Stmts(u.Tier)
 		seps := []string{" ", "\n", "\t ", "  ", "\r\n"}
@@ -727,6 +729,65 @@ func (m c11Match) sql() string {
 	}
 	p = append(p, "DEFINE "+strings.Join(ds, ", "), ")")
 	return strings.Join(p, " ")
+}
+
+// c11RunWithin: every spelling of the WITHIN bound of MATCH_RECOGNIZE - quoted Go durations and <number> <unit> with
+// integral and fractional counts over every documented unit name in upper and lower case - must give exactly the
+// written duration; spellings of one duration give one configuration.
+func c11RunWithin(a *acc) {
+	type unit struct {
+		names []string
+		d     time.Duration
+	}
+	units := []unit{
+		{[]string{"NS", "NANOSECONDS"}, time.Nanosecond}, {[]string{"US", "MICROS", "MICROSECONDS"}, time.Microsecond},
+		{[]string{"MS", "MILLIS", "MILLISECOND", "MILLISECONDS"}, time.Millisecond}, {[]string{"S", "SEC", "SECS", "SECOND", "SECONDS"}, time.Second},
+		{[]string{"M", "MIN", "MINS", "MINUTE", "MINUTES"}, time.Minute}, {[]string{"H", "HR", "HRS", "HOUR", "HOURS"}, time.Hour},
+	}
+	nums := []string{"1", "5", "90", "1500", "1.5", "0.5", "2.25", "0.001", "10.0"}
+	stmt := func(w string) string {
+		return "SELECT * FROM stream MATCH_RECOGNIZE (ORDER BY ts MEASURES LAST(id) AS l ONE ROW PER MATCH PATTERN (A B) WITHIN " + w + " DEFINE A AS v > 1, B AS v < 2)"
+	}
+	check := func(w string, want time.Duration) {
+		sql := stmt(w)
+		cfg, _, err, pn := c11Parse(sql)
+		a.r.Evaluations++
+		a.r.States++
+		a.r.Transitions++
+		cs := map[string]any{"sql": sql}
+		if pn != "" || err != nil || cfg == nil || cfg.MatchRecognize == nil {
+			a.fail("C11|grammar-statement-rejected|match_recognize-within", fmt.Sprintf("WITHIN %s rejected: %v %s", w, err, firstLine(pn)), cs, nil, nil)
+			return
+		}
+		a.r.Nontrivial++
+		a.outcome(cfg.MatchRecognize.Within.String())
+		if cfg.MatchRecognize.Within != want {
+			frac := strings.Contains(w, ".")
+			a.fail(fmt.Sprintf("C11|fidelity|match_recognize-within|quoted=%v|fractional=%v", strings.HasPrefix(w, "'"), frac),
+				fmt.Sprintf("WITHIN %s: configuration holds %v, written %v", w, cfg.MatchRecognize.Within, want), cs, want.String(), cfg.MatchRecognize.Within.String())
+		}
+	}
+	for _, q := range []string{"5s", "1.5s", "1500ms", "2m", "1h30m", "250us", "0.5s", "100ns"} {
+		d, _ := time.ParseDuration(q)
+		check("'"+q+"'", d)
+	}
+	for _, u := range units {
+		for _, name := range u.names {
+			for _, n := range nums {
+				f, _ := strconv.ParseFloat(n, 64)
+				want := time.Duration(f * float64(u.d))
+				if u.d == time.Nanosecond {
+					want = time.Duration(f)
+				}
+				if want <= 0 {
+					continue // below the resolution: the property does not say what a bound of zero means
+				}
+				check(n+" "+name, want)
+				check(n+" "+strings.ToLower(name), want)
+			}
+		}
+	}
+	a.sample(map[string]any{"sql": stmt("1.5 SECONDS"), "within": "1.5s"})
 }
 
 func c11Matches() []c11Match {
